@@ -292,6 +292,49 @@ theorem kernel_local_join_then_apply_high {Q : Type} [LE Q] [LT Q] [DecidableLE 
     simp [updsOf, List.filterMap_flatMap]
   rw [this, hflat]
 
+/-- **Both memory modes compute the same local-join step — on the regenerated code.**  Old graph with heap order and true
+distances in its rows (`HeapTruth`), a valid `in_graph` record, a symmetric distance: the update lists the regenerated
+`generate_graph_updates` produces are truthful (`joinUpdates_truthful'`), so feeding them to the regenerated high-memory
+applier and to the regenerated low-memory applier (any positive thread count) gives the same graph; all three kernels stay in
+bounds.  (C12 for one step, with the updates being those the library generates rather than an arbitrary truthful list.) -/
+theorem kernel_local_join_step_low_eq_high
+    (nb ob : Array (Array Int)) (th : Array P) (data : Array (Array P))
+    (dist : Array P → Array P → P) (top : P) (w : Nat) (hob : ob.size = nb.size)
+    (k : Nat) (hk : 0 < k) (I : Array (Array Int)) (D : Array (Array P)) (F : Array (Array Int)) (s : InGraph)
+    (hI : I.size = D.size) (hF : F.size = D.size) (hS : s.size = D.size)
+    (hrect : ∀ r (h : r < D.size), D[r].size = k ∧ (I[r]'(by omega)).size = k ∧ (F[r]'(by omega)).size = k)
+    (hw : ∀ r (h : r < nb.size), nb[r].size = w ∧ (ob[r]'(by omega)).size = w)
+    (hok : ∀ r (h : r < nb.size), LeafRowOk nb[r] data.size ∧ LeafRowOk nb[r] th.size ∧
+      LeafRowOk (ob[r]'(by omega)) data.size ∧ LeafRowOk (ob[r]'(by omega)) th.size)
+    (hN : ∀ r (h : r < nb.size), LeafRowOk nb[r] D.size ∧ LeafRowOk (ob[r]'(by omega)) D.size)
+    (fuel : Nat) (hf : nb.size + w + w + 3 ≤ fuel)
+    (hsymm : ∀ a b, distOf data dist a b = distOf data dist b a)
+    (hH : HeapTruth (distOf data dist) (zipGraph D I F))
+    (hInv : InGraphInv (distOf data dist) (zipGraph D I F) s) :
+    ∃ U', GenK.generate_graph_updates fuel top nb ob th data dist = some U' ∧
+      ∀ (T M fuel' : Nat), 0 < T → (∀ b ∈ U'.toList, b.size ≤ M) → T + U'.size + M + k + 3 ≤ fuel' →
+        ∃ Ih Dh Fh sh ch Il Dl Fl cl,
+          GenK.apply_graph_updates_high_memory fuel' I D F U' s = some (Ih, Dh, Fh, sh, ch) ∧
+          GenK.apply_graph_updates_low_memory fuel' I D F U' (T : Int) = some (Il, Dl, Fl, cl) ∧
+          zipGraph Dh Ih Fh = zipGraph Dl Il Fl := by
+  obtain ⟨U', h1, hlow⟩ := kernel_local_join_then_apply nb ob th data dist top w hob k hk I D F hI hF hrect
+    hw hok hN fuel hf
+  obtain ⟨U'', h1', hhigh⟩ := kernel_local_join_then_apply_high nb ob th data dist top w hob k hk I D F s hI hF hS hrect
+    hw hok hN fuel hf
+  have hU : U'' = U' := by rw [h1] at h1'; exact (Option.some.inj h1').symm
+  subst hU
+  refine ⟨U'', h1, ?_⟩
+  intro T M fuel' hT hM hf'
+  obtain ⟨Il, Dl, Fl, cl, hl, zl⟩ := hlow T M fuel' hT hM hf'
+  obtain ⟨Ih, Dh, Fh, sh, ch, hh, zh⟩ := hhigh M fuel' hM (by omega)
+  refine ⟨Ih, Dh, Fh, sh, ch, Il, Dl, Fl, cl, hh, hl, ?_⟩
+  have hTr : Truthful (distOf data dist) ((List.range nb.size).flatMap (fun r =>
+      joinUpdates (thrOf th top) (distOf data dist) nb[r]!.toList ob[r]!.toList)) :=
+    truthful_flatMap _ _ _ (fun r _ => joinUpdates_truthful' _ _ _ _)
+  obtain ⟨e, _, _⟩ := applyHigh_eq_applyLow_ht hsymm T hT (zipGraph D I F) _ s hH hInv hTr
+  rw [zh, zl]
+  exact congrArg Prod.fst e
+
 /-- **A single leaf is exact.**  Let `leaf` enumerate the points `0..n-1` exactly once (trailing
 `-1` padding allowed), `dist` be symmetric with finite values, and
 `g = init_rp_tree(empty graph, [leaf])`.  Then `g` has `n` rows of `k` slots and every row `p`:
